@@ -187,9 +187,14 @@ type Opts struct {
 	ListStyles     []ListStyle // office:styles of styles.xml
 	AutoStyles     []Style     // office:automatic-styles of content.xml
 	AutoListStyles []ListStyle // office:automatic-styles of content.xml
-	NoStylesPart   bool        // omit styles.xml (then header / footer cannot be written)
-	Title          string      // "" = no meta.xml
-	Extra          []zipw.Member
+	// StylesAutoStyles / StylesAutoListStyles go into office:automatic-styles of styles.xml (the
+	// scope of headers / footers). Their names may collide with content.xml's automatic styles:
+	// the two parts number their automatic styles independently.
+	StylesAutoStyles     []Style
+	StylesAutoListStyles []ListStyle
+	NoStylesPart         bool   // omit styles.xml (then header / footer cannot be written)
+	Title                string // "" = no meta.xml
+	Extra                []zipw.Member
 }
 
 // DefaultStyles returns Standard, Heading, Heading_20_1..6, Text_20_body, List_20_Paragraph.
@@ -457,7 +462,9 @@ func Members(doc Doc, o Opts) []zipw.Member {
 		s.WriteString(hdr)
 		fmt.Fprintf(&s, `<office:document-styles%s><office:font-face-decls/><office:styles>`, nsDecl)
 		writeStyles(&s, o.Styles, o.ListStyles)
-		s.WriteString(`</office:styles><office:automatic-styles><style:page-layout style:name="pm1"><style:page-layout-properties fo:page-width="21cm" fo:page-height="29.7cm" fo:margin-top="2cm" fo:margin-bottom="2cm" fo:margin-left="2cm" fo:margin-right="2cm"/></style:page-layout></office:automatic-styles>`)
+		s.WriteString(`</office:styles><office:automatic-styles>`)
+		writeStyles(&s, o.StylesAutoStyles, o.StylesAutoListStyles)
+		s.WriteString(`<style:page-layout style:name="pm1"><style:page-layout-properties fo:page-width="21cm" fo:page-height="29.7cm" fo:margin-top="2cm" fo:margin-bottom="2cm" fo:margin-left="2cm" fo:margin-right="2cm"/></style:page-layout></office:automatic-styles>`)
 		s.WriteString(`<office:master-styles><style:master-page style:name="Standard" style:page-layout-name="pm1">`)
 		if doc.Header != nil {
 			hw := &writer{}
